@@ -12,6 +12,12 @@ C10 ∘ C11 ∘ C05 — the end-to-end statement with the schema check in place 
 So the end-to-end statement reads: the sources resolve, the resolved document passes the schema check, the
 configuration satisfies `CfgOK` ⇒ every alias denotes `Ref` over the merged schema.
 Only theorems of C05 whose statements do not mention the directive-recursion walk are used.
+
+OPEN — carried by K/O only (full list: the OPEN block of `Props/C10.lean`): `CfgOK` is discharged nowhere; `hpos` (no user
+definition carries a built-in position) is a fact about the parser, assumed; `ResolversOK` stays a hypothesis of
+`C10_resolvers_from_sources_checked` — `ResolversOK_of_checked` / `C10_cli_resolversOK` derive only its reserved-name part
+and keep "no type named `Omit`", "only `type` / `interface` definitions carry fields", "no scalar text applies `Omit<…>`";
+`resolve` and `checkSchema` are the C11 / C05 MODELS (tied to the Rust code by those properties' K streams).
 -/
 import NitroVerif.Props.C10Composed
 import NitroVerif.Lemmas.DeclsComposedValid
